@@ -205,6 +205,8 @@ NEGATIVE = [
   ('redefinition-of-fifth-import', dict([('m%d.l' % i, 'P%d(%d);\n' % (i, i)) for i in range(1, 6)]), ''.join('import m%d.P%d;\n' % (i, i) for i in range(1, 6)) + 'P5(9);\nT(x) :- P1(x) | P2(x) | P3(x) | P4(x) | P5(x);\n'),
   ('redefinition-of-import-reached-twice', {'m1.l': 'import m2.Other as In;\nPub(x) :- In(x);\n', 'm2.l': 'Other(2);\n'}, 'import m1.Pub;\nimport m2.Other;\nOther(5);\nT(x) :- Pub(x) | Other(x);\n'),
   ('redefinition-in-module-of-its-second-import', {'m1.l': 'import m2.Other as In;\nimport m3.Third as In3;\nPub(x) :- In(x) | In3(x);\nIn3(5);\n', 'm2.l': 'Other(2);\n', 'm3.l': 'Third(3);\n'}, 'import m1.Pub;\nT(x) :- Pub(x);\n'),
+  ('module-named-main', {'main.l': 'Pub(1);\n'}, 'import main.Pub;\nT(x) :- Pub(x);\n'),
+  ('module-named-main-imported-by-module', {'main.l': 'Pub(1);\n', 'm1.l': 'import main.Pub as In;\nPub(x) :- In(x);\n'}, 'import m1.Pub;\nT(x) :- Pub(x);\n'),
   ('missing-file', {'m1.l': 'Pub(1);\n'}, 'import m9.Pub;\nT(x) :- Pub(x);\n'),
   ('private-of-module-not-visible', {'m1.l': 'Priv(1);\nPub(x) :- Priv(x);\n'}, 'import m1.Pub;\nT(x) :- Pub(x), M1_Hidden(x);\n'),
 ]
